@@ -11,18 +11,19 @@ import (
 )
 
 // R3: the GoogleSQL operator precedence table as data (1 binds tightest).
-//   1  field access .f, subscript [i]
-//   2  unary + - ~
-//   3  * / ||
-//   4  + -
-//   5  << >>
-//   6  &
-//   7  ^
-//   8  |
-//   9  = != <> < <= > >= [NOT] LIKE, [NOT] IN, [NOT] BETWEEN, IS [NOT] NULL/TRUE/FALSE   (non-associative)
-//   10 NOT
-//   11 AND
-//   12 OR
+//
+//	1  field access .f, subscript [i]
+//	2  unary + - ~
+//	3  * / ||
+//	4  + -
+//	5  << >>
+//	6  &
+//	7  ^
+//	8  |
+//	9  = != <> < <= > >= [NOT] LIKE, [NOT] IN, [NOT] BETWEEN, IS [NOT] NULL/TRUE/FALSE   (non-associative)
+//	10 NOT
+//	11 AND
+//	12 OR
 type opInfo struct {
 	text  string // source spelling
 	level int
